@@ -178,7 +178,62 @@ def configs(rng, full):
                 yield zip_, thr, rng.choice((0, 1, 2)), rng.choice(("text", "tree")), rng.random() < 0.4
 
 
-def one_pair(ctx, t1, t2, cases, full=False, corr=True):
+def observe_guards(ctx, t1, t2, guard, always):
+    """Python's in_guard vs the guards of the Coq theorem (mirror of DeltaChain.guardsb): counted, and
+    every difference must have a known reason"""
+    d0 = describe(t1, t2)
+    g = DC.guardsb_py(t1, t2, False, always)
+    ctx.count("hyp:guardsb_true" if g else "hyp:outside_guardsb")
+    reasons = DC.guards_reasons(t1, t2, False, always)
+    for r in reasons:
+        ctx.count("hyp:outside_guardsb:" + r)
+    if DC.alias_free_py(t1, t2) == d0["alias"]:
+        ctx.break_("correspondence", {"name": "guards agreement", "detail": "alias_free (Coq guard) and contains_alias (Python in_guard) disagree",
+                                      "t1": repr(t1), "t2": repr(t2)})
+    if guard and not g:
+        ctx.count("hyp:in_guard_but_outside_guardsb")
+        if "alias" in reasons:
+            ctx.break_("correspondence", {"name": "guards agreement", "detail": "in_guard holds but guardsb fails on aliasing", "t1": repr(t1), "t2": repr(t2)})
+    if g and not guard:
+        ctx.count("hyp:guardsb_but_outside_in_guard")
+        why = [k for k in ("container_in_tuple", "set_to_seq_type_change") if d0[k]] + ([] if D.in_model_guard(t1, t2) else ["model_guard"])
+        for k in why:
+            ctx.count("hyp:guardsb_but_outside_in_guard:" + k)
+        if not why or d0["alias"]:
+            ctx.break_("correspondence", {"name": "guards agreement", "detail": "guardsb holds, in_guard fails for no known reason", "t1": repr(t1), "t2": repr(t2)})
+    return g
+
+
+def observe_hypotheses(ctx, t1, t2, zip_, thr, always, d, conv, rem, add, g, hyp_cases, tag):
+    """the oracle hypotheses of C01_roundtrip_partial on what the implementation supplied: difflib opcodes are a
+    valid alignment, the sorted passes visit integer keys descending / ascending.  Mirror value is expected
+    from the model (agreement); inside the theorem's guards a False is a break."""
+    table = D.opcode_table(t1, t2)
+    ops_ok = DC.ops_table_ok_py(t1, t2, table)
+    r6, r9, a7, fallback = DC.impl_orders_split(d)
+    ord_ok = DC.desc_ok(r6) and DC.desc_ok(r9) and DC.asc_ok(a7)
+    ctx.count("hyp:valid_ops_true" if ops_ok else "hyp:valid_ops_false")
+    ctx.count("hyp:orders_ok_true" if ord_ok else "hyp:orders_ok_false")
+    if table:
+        ctx.count("hyp:cases_with_opcode_tables")
+    if len(r6) > 1 or len(r9) > 1 or len(a7) > 1:
+        ctx.count("hyp:cases_with_a_sorted_pass_of_2+_items")
+    if fallback:
+        ctx.count("hyp:sort_fallback_comparator_used")
+    if g:
+        ctx.count("hyp:all_hypotheses_hold" if (ops_ok and ord_ok) else "hyp:guards_hold_but_oracle_hypothesis_fails")
+        if not ops_ok:
+            ctx.break_("correspondence", {"name": "hypothesis valid_ops", "detail": "difflib opcodes are not a valid alignment (tiling / equal blocks / non-empty blocks)",
+                                          "case": tag, "opcodes": repr(table)[:600]})
+        if not ord_ok:
+            ctx.break_("correspondence", {"name": "hypothesis orders_ok", "case": tag,
+                                          "detail": "a sorted pass of Delta does not visit sibling indexes %s (fallback comparator used: %s)"
+                                                    % ("descending" if not (DC.desc_ok(r6) and DC.desc_ok(r9)) else "ascending", fallback),
+                                          "orders": repr((r6, r9, a7))[:600]})
+    hyp_cases.append((DC.hyp_expr(t1, t2, zip_, thr, False, always, conv, rem, add), [g, ops_ok, ord_ok], dict(tag, hypotheses="guardsb/valid_ops/orders_ok")))
+
+
+def one_pair(ctx, t1, t2, cases, full=False, corr=True, hyp_cases=None):
     guard = in_guard(t1, t2)
     ctx.count("in_model_guard" if guard else "outside_model_guard")
     for zip_, thr, verbose, view, always in configs(ctx.rng, full):
@@ -186,6 +241,7 @@ def one_pair(ctx, t1, t2, cases, full=False, corr=True):
         out = run_impl(t1, t2, cfg, always)
         ctx.seen((repr(t1), repr(t2), zip_, thr, verbose, view, always), nontrivial=not V.typed_eq(t1, t2))
         oracle(ctx, t1, t2, cfg, always, out)
+        g = observe_guards(ctx, t1, t2, guard, always)
         if corr and guard and "exc" not in out:
             # the delta does not depend on verbose/view: one model case per (zip, thr, always)
             d, dd = out["delta"], out["dd"]
@@ -194,7 +250,10 @@ def one_pair(ctx, t1, t2, cases, full=False, corr=True):
             conv = DC.conv_table(DC.type_change_pairs(tree))
             expr = DC.model_expr(t1, t2, zip_, thr, False, always, t1, conv, rem, add)
             exp = [DC.delta_obs(d.diff), [DC.canon_unordered(out["result"]), out["errors"] > 0]]
-            cases.append((expr, exp, dict(t1=repr(t1), t2=repr(t2), zip=zip_, thr=thr, always=always, verbose=verbose, view=view)))
+            tag = dict(t1=repr(t1), t2=repr(t2), zip=zip_, thr=thr, always=always, verbose=verbose, view=view)
+            cases.append((expr, exp, tag))
+            if hyp_cases is not None:
+                observe_hypotheses(ctx, t1, t2, zip_, thr, always, d, conv, rem, add, g, hyp_cases, tag)
             if d.diff.get("_iterable_opcodes"):
                 ctx.count("delta_with_opcodes")
 
@@ -305,14 +364,37 @@ def small_universe_pairs(ctx, thorough):
     return pairs
 
 
+def tuple_length_probe(ctx):
+    """OUTSIDE the property's domain (tuples are only edited in place) and outside `guards`: what the implementation
+    does when a tuple changes its length.  Recorded, never a failure.  DeltaModel.add_one is NOT faithful here:
+    an insertion inside a tuple raises AttributeError ('tuple' object has no attribute 'insert') in the code,
+    the model sets the item without inserting."""
+    from deepdiff import DeepDiff, Delta
+    rng = ctx.rng
+    pairs = [((1, 2), (1, 7, 2)), ((1, 2, 3), (1, 3)), ((1, 2), (1, 2, 3)), ((1, 2, 3), (1, 2)), ((1, 2), (7, 1, 2)), ((), (1,))]
+    for _ in range(40 if ctx.thorough else 12):
+        a, b, _k = V.gen_atom_list_pair(rng)
+        if len(a) != len(b) and not V.contains_alias(a, b):
+            pairs.append((tuple(a), tuple(b)))
+    for a, b in pairs:
+        kind = "insert_or_delete_inside" if (a[:min(len(a), len(b))] != b[:min(len(a), len(b))]) else "trailing"
+        try:
+            r = copy.deepcopy(a) + Delta(DeepDiff(copy.deepcopy(a), copy.deepcopy(b)))
+            res = "result_equals_t2" if V.typed_eq(r, b) else "result_differs"
+        except Exception as e:
+            res = "raised_" + type(e).__name__
+        ctx.count("probe:tuple_length_change:%s:%s" % (kind, res))
+
+
 def run(ctx):
     cases = []
+    hyp_cases = []
     pairs = gen_random(ctx, 2500 if ctx.thorough else 330)
     for t1, t2 in pairs:
-        one_pair(ctx, t1, t2, cases, full=False)
+        one_pair(ctx, t1, t2, cases, full=False, hyp_cases=hyp_cases)
     su = small_universe_pairs(ctx, ctx.thorough)
     for t1, t2 in su:
-        one_pair(ctx, t1, t2, cases, full=False, corr=(ctx.rng.random() < (0.05 if ctx.thorough else 0.5)))
+        one_pair(ctx, t1, t2, cases, full=False, corr=(ctx.rng.random() < (0.05 if ctx.thorough else 0.5)), hyp_cases=hyp_cases)
     # full configuration product on a few pairs
     for t1, t2 in pairs[:40 if ctx.thorough else 8]:
         one_pair(ctx, t1, t2, cases, full=True, corr=False)
@@ -321,6 +403,8 @@ def run(ctx):
     for c in cases[:3]:
         ctx.sample(c[2])
     ctx.coq_cases("c01", DC.HDR, cases, shard=120, label="payload+apply")
+    ctx.coq_cases("c01hyp", DC.HYP_HDR, hyp_cases, shard=160, label="theorem-hypotheses")
+    tuple_length_probe(ctx)
     witnesses(ctx)
 
 
